@@ -176,7 +176,7 @@ def labels(xs):
     return out
 
 
-def order_labels(xs, zero=False):
+def order_labels(xs, zero=False, strict=False):
     """Canonical order pattern of symbolic numbers: returns concrete ints r with
     r[i] < r[j] iff xs[i] < xs[j] and r[i] == r[j] iff xs[i] == xs[j]; with zero=True
     additionally sign(r[i]) == sign(xs[i]).  Each comparison is a solver-decided
@@ -191,6 +191,8 @@ def order_labels(xs, zero=False):
         for pos in range(len(classes)):
             rep = classes[pos][0]
             if x == rep:
+                if strict:
+                    assume(False)        # pairwise distinct values only: discard this path early
                 classes[pos][1].append(i)
                 placed = True
                 break
